@@ -212,7 +212,7 @@ func (c *Check) Execute(t Tier) int {
 	ev.WallS = time.Since(t0).Seconds()
 	WriteEvidence(ev)
 	if code == 0 {
-		fmt.Printf("OK property=%s tier=%s states=%d transitions=%d wall=%.1fs\n", c.ID, t, states, trans, ev.WallS)
+		fmt.Printf("OK property=%s tier=%s states=%v transitions=%v evaluations=%v wall=%.1fs\n", c.ID, t, ev.Coverage["states"], ev.Coverage["transitions"], ev.Coverage["evaluations"], ev.WallS)
 	}
 	return code
 }
